@@ -42,6 +42,11 @@ CHECKS = {
          "All well-formed histories of <= 5 (thorough 6) operations over {declare int/const/qubit x, use x, assign x, gate-call x, open if/else/while/for x/case/default/gate(x)/def(x), close} for three two-name pools (user names; pi and the library gate h after include; the built-in U) are rendered as programs; the graph is walked in source order and every symbol reference is compared with the reference scope machine: resolved iff visible, same symbol iff same declaration, symbol name equals the identifier, unresolved uses marked MissingBinding, typed Undefined and reported exactly once on the identifier, duplicates marked AlreadyBound and reported exactly once with the name, scope stack back at depth 1. Reports reference states, transitions and traces; every trace runs on the implementation.",
          "Readings where the statement is silent are listed in the evidence assumptions. Hook oq3_verif for the depth.",
          "DESIGN.md section 7, C07"),
+ "C10": ("exploration",
+         "exhaustive enumeration of structured literal spelling sets; value in the graph and in the AST accessors compared with the value computed by the harness's own spelling generator",
+         "Every integer 0..4096, every 2^k and 2^k+-1 (k <= 128) and 64 digit patterns in 4 radices, both prefix cases, both hex digit cases and all legal underscore placements; 5 mantissas x 8 fractions x 11 exponents of float spellings with underscores and leading-dot forms; all bit strings up to 12 bits and structured ones up to 256 bits, both quote flavours, with underscores; every unit (dt ns us µs ms s) and `im` glued, spaced and tabbed; booleans; each as expression statement, under unary minus (glued/spaced) and as initializer. The graph literal (class, value, sign, unit, bit count as width) and IntNumber/FloatNumber/BitString::value must equal the expected value.",
+         "Integers are covered on the stated set only. Expected doubles are Rust's parse::<f64> of the underscore-free spelling. One defect (float `1.e3`) was repaired by a fix: commit.",
+         "DESIGN.md section 7, C10"),
  "C11": ("exploration",
          "bounded exhaustive splicing of malformed lexemes at every position of every short token sequence; gating relations checked on every token sequence through the full pipeline",
          "35 malformed spellings in 8 classes (unterminated strings, bit strings and comments, base prefixes without digits, exponents without digits, malformed version headers, identifiers with forbidden characters) are spliced at every gap of every sequence of <= 2 tokens over the full token alphabet; the lexical diagnostic must sit on the spliced lexeme. Every sequence of <= 3 tokens (with malformed variants) goes through parse_check_lex (tree iff no lexical diagnostic; diagnostics all lexical or all syntactic) and through parse_source_string (any_syntax_errors iff a syntax diagnostic; then empty program and no semantic diagnostics; otherwise analysis ran).",
